@@ -95,7 +95,8 @@ func decoyScope(sym, strategy string, rng *rand.Rand) string {
 	case "hierarchic":
 		forms = []string{b[:len(b)-1], b + ".rea", b + ".read.sub", b[:1], b + ".write"}
 	case "wildcard":
-		forms = []string{b[:len(b)-1] + ".*", b + ".rea", b + ".*.x", "*.write", b[:len(b)-1]}
+		// (the bare parent grants nothing here: only a pattern reaches below it)
+		forms = []string{b[:len(b)-1] + ".*", b + ".rea", b + ".*.x", "*.write", b[:len(b)-1], b, b}
 	default:
 		forms = []string{b + ":rea", b + ":read2", b, b + ".read", b + ":*"}
 	}
@@ -209,6 +210,22 @@ func Payload(c *Case, now time.Time) (map[string]any, error) {
 				l[i] = AudName(a)
 			}
 
+			cl["aud"] = l
+		}
+	}
+
+	// near misses of the audiences the token is not meant for (a trailing slash more, other capitals):
+	// other recipients all the same
+	if c.Conc.AudForm != "string" && c.Conc.Extra%3 == 1 {
+		l, _ := cl["aud"].([]any)
+
+		for _, sym := range []string{"a1", "a2", "a3"} {
+			if !slices.Contains(t.Aud, sym) {
+				l = append(l, []string{AudName(sym) + "/", strings.ToUpper(AudName(sym)[:1]) + AudName(sym)[1:] + "/"}[rng.Intn(2)])
+			}
+		}
+
+		if len(l) != 0 {
 			cl["aud"] = l
 		}
 	}
